@@ -118,13 +118,47 @@ Definition prim_schema (t : ty) : option schema :=
   | _ => None
   end.
 
+(* structural equality of printed values *)
+Fixpoint ns_eqb (a b : list N) : bool :=
+  match a, b with
+  | [], [] => true
+  | x :: a', y :: b' => N.eqb x y && ns_eqb a' b'
+  | _, _ => false
+  end.
+
+Fixpoint sx_eqb (a b : sx) : bool :=
+  match a, b with
+  | SN x, SN y => N.eqb x y
+  | SZ x, SZ y => Z.eqb x y
+  | SB x, SB y => Bool.eqb x y
+  | Sx.SBits x, Sx.SBits y => bits_eqb x y
+  | SBytes x, SBytes y => ns_eqb x y
+  | SA x, SA y => String.eqb x y
+  | SL x, SL y =>
+      (fix go (l m : list sx) : bool :=
+         match l, m with
+         | [], [] => true
+         | u :: l', v :: m' => sx_eqb u v && go l' m'
+         | _, _ => false
+         end) x y
+  | _, _ => false
+  end.
+
+(* the decoder reads back exactly what the schema serialisation holds: same value, nothing left *)
+Definition decodes_back (t : ty) (x : value) (c : ctree) : bool :=
+  match dec [] fuel t (open c) with
+  | Ok (x', rest) =>
+      sx_eqb (val_sx x') (val_sx x) && match sb rest, sr rest with [], [] => true | _, _ => false end
+  | _ => false
+  end.
+
 Definition same_as_schema (s : schema) (v : value) (c : ctree) : bool :=
   match spec_encode s v with
   | Some (bs, rs) => cell_eqb_sx c (CT bs rs)
   | None => false
   end.
 
-(** c04.spec ('SchemaName go-type-name descriptor value) -> 'err | (cell refines? schema-serialisation-equal?) *)
+(** c04.spec ('SchemaName go-type-name descriptor value) -> 'err | (cell refines? schema-serialisation-equal? decodes-back?) *)
 Definition run_spec (a : sx) : sx :=
   match a with
   | SL [SA nm; _; d; v] =>
@@ -133,7 +167,7 @@ Definition run_spec (a : sx) : sx :=
           match (if String.eqb nm "prim" then prim_schema t else lookup nm schema_table) with
           | Some s =>
               match enc [] fuel t x empty_bld with
-              | Ok b => let c := finish b in SL [cell_sx c; SB (refines 64 s t); SB (same_as_schema s x c)]
+              | Ok b => let c := finish b in SL [cell_sx c; SB (refines 64 s t); SB (same_as_schema s x c); SB (decodes_back t x c)]
               | Err e => if N.eqb e EFuel then sx_err "fuel" else SA "err"
               | Panic _ => SA "panic"
               end
